@@ -439,7 +439,12 @@ Proof.
 Qed.
 
 Lemma pct_decode_marker s : pct_decode (marker ++ s) = option_map (String.append marker) (pct_decode s).
-Proof. unfold marker. simpl. destruct (pct_decode s); reflexivity. Qed.
+Proof.
+  unfold marker. cbn [String.append].
+  repeat (match goal with |- context [pct_decode (String ?c ?r)] =>
+     change (pct_decode (String c r)) with (option_map (String c) (pct_decode r)) end).
+  destruct (pct_decode s); reflexivity.
+Qed.
 
 Lemma pct_decode_esc a b x y s :
   hexval a = Some x -> hexval b = Some y ->
@@ -1128,7 +1133,8 @@ Lemma F1_refuted :
     route_matches false true D8 eng_none cm q [] [] = MNo /\ spec_route_ok eng_none r [] q [] [] = true.
 Proof.
   exists (w_rule [] [w_exact "a.com"; w_exact "b.com"] [w_route "/a" []] SOff).
-  eexists. exists (w_req "GET" "a.com" "/a"). vm_compute. repeat split.
+  eexists. exists (w_req "GET" "a.com" "/a").
+  split; [vm_compute; reflexivity|]. split; [vm_compute; reflexivity|]. split; vm_compute; reflexivity.
 Qed.
 
 (** C03-F4: methods ["!GET"]; GET /a is matched *)
@@ -1137,7 +1143,8 @@ Lemma F4_refuted :
     route_matches false true D8 eng_none cm q [] [] = MYes /\ spec_route_ok eng_none r [] q [] [] = false.
 Proof.
   exists (w_rule ["!GET"] [] [w_route "/a" []] SOff).
-  eexists. exists (w_req "GET" "h" "/a"). vm_compute. repeat split.
+  eexists. exists (w_req "GET" "h" "/a").
+  split; [vm_compute; reflexivity|]. split; [vm_compute; reflexivity|]. split; vm_compute; reflexivity.
 Qed.
 
 (** C03-F6 (pinned tree, before commit 72ba5d4): /file/:name with path_params name = exact "A"
